@@ -425,7 +425,12 @@ def _increment_glue(ctx, py):
                  and unwrap(cap["c"][s, d]) == sp.Symbol("rot_c0_s%d_%d" % (s, d), real=True) for s in range(n - 1) for d in range(3))
     ctx.ob("C03.incr.glue.rotation_coefficients", "c", ok_abc, "symbolic-execution(letters)", time.time() - t0,
            "a, b, c are the linear, quadratic, cubic coefficients of the rotation-vector spline (c[2], c[1], c[0])")
-    ok_dt = all(sp.expand(unwrap(cap["dt"][s, 0]) - (ts[s + 1].e - ts[s].e)) == 0 for s in range(n - 1))
+    # dt handed to the series: one interval per row, dt[s] = t[s+1] - t[s] (whatever container shape it comes in)
+    try:
+        dt_cap = np.broadcast_to(np.asarray(cap["dt"], dtype=object).reshape(-1, 1) if np.ndim(cap["dt"]) else np.asarray(cap["dt"], dtype=object), (n - 1, 1))
+        ok_dt = all(sp.expand(sp.sympify(unwrap(dt_cap[s, 0])) - (ts[s + 1].e - ts[s].e)) == 0 for s in range(n - 1))
+    except (ValueError, TypeError):
+        ok_dt = False
     ctx.ob("C03.incr.glue.dt", "c", ok_dt, "symbolic-execution(letters)", 0.0, "dt = differences of the (irregular, symbolic) time stamps")
     # d = C_ib,k^T (acc.c[1] - g_k), e = C_ib,k^T (acc.c[0] - (g_{k+1} - g_k)/dt): linear in the acceleration coefficients with the right matrices
     okd = True
